@@ -1,6 +1,58 @@
-(* Property C13 — hyper values: decode and encode are mutually inverse and side-effect free.  Statements only. *)
-From PG Require Import Common.Tactics Model.Geno Model.Hyper Proofs.HyperBasics.
+(* Property C13 — hyper values: decode and encode are mutually inverse and side-effect free.
+   Statements only; proofs in Proofs/Hyper*.v.  [sdecode]/[sencode]/[dna_spec] : Model/Hyper.v;  [shape], [veq],
+   [distinguishable], [hypers_of], [shallow], [wf_t] : Model/HyperSpec.v;  [valid], [all_valid], [space_size] : Model/Geno.v (C11).
+   User code of CustomHyper subclasses is [cdec]/[cenc]; what each theorem assumes of it is in its statement. *)
+From PG Require Import Common.Tactics Model.Geno Model.Hyper Model.HyperSpec Model.HyperRun
+  Proofs.HyperBasics Proofs.HyperDecode Proofs.HyperEncode Proofs.HyperInstance.
 
-Theorem C13_spec_elements : forall w t, elements (dna_spec w t) = pts w [] t.
-Proof. exact dna_spec_elements. Qed.
-Print Assumptions C13_spec_elements.
+(* decoding a DNA that is valid for the template's specification can only fail inside user code *)
+Theorem C13_decode_total : forall cdec w t d, shallow w -> custom_concrete cdec -> custom_total cdec ->
+  valid (dna_spec w t) d = true -> exists v, sdecode cdec w t d = Ok v.
+Proof. exact decode_total. Qed.
+Print Assumptions C13_decode_total.
+
+(* no placeholder is left, except the ones the filter rejects *)
+Theorem C13_decode_concrete : forall cdec w t d v, shallow w -> custom_concrete cdec ->
+  valid (dna_spec w t) d = true -> sdecode cdec w t d = Ok v -> Forall (fun h => w h = false) (hypers_of v).
+Proof. exact decode_concrete. Qed.
+Print Assumptions C13_decode_concrete.
+
+Theorem C13_decode_concrete_nofilter : forall cdec t d v, custom_concrete cdec ->
+  valid (dna_spec (fun _ => true) t) d = true -> sdecode cdec (fun _ => true) t d = Ok v -> hypers_of v = [].
+Proof. exact decode_concrete_nofilter. Qed.
+Print Assumptions C13_decode_concrete_nofilter.
+
+(* the value has the template's shape: accepted placeholders replaced by decoded candidates, the rest (including
+   the filtered-out placeholders) in place *)
+Theorem C13_decode_shape : forall cdec w t d v, shallow w -> custom_concrete cdec ->
+  valid (dna_spec w t) d = true -> sdecode cdec w t d = Ok v -> shape cdec w t v.
+Proof. exact decode_shape. Qed.
+Print Assumptions C13_decode_shape.
+
+(* what encode accepts is (==) a value some valid DNA decodes to *)
+Theorem C13_encode_sound : forall cdec cenc w q, no_hquirks q ->
+  (forall ck v e, cenc ck v = Err e -> catchable e = true) ->
+  (forall ck v s, cenc ck v = Ok s -> exists v', cdec ck s = Ok v' /\ veq v' v = true) ->
+  forall t v ds, wf_t t -> enc cenc w q t v = Ok ds ->
+  exists ds', (forall p, forallb2 valid_p (pts w p t) ds' = true) /\
+              forall rest, exists v', sdec cdec w t (ds' ++ rest) = Ok (v', rest) /\ veq v' v = true.
+Proof. intros cdec cenc w q Hq He Hs t v ds Hwf. exact (enc_sound cdec cenc w q Hq He Hs t Hwf v ds). Qed.
+Print Assumptions C13_encode_sound.
+
+(* encoding the decoded value returns the same DNA whenever the candidates are distinguishable *)
+Theorem C13_encode_decode : forall cdec cenc w q, no_hquirks q ->
+  (forall ck v e, cenc ck v = Err e -> catchable e = true) ->
+  (forall ck v s, cenc ck v = Ok s -> exists v', cdec ck s = Ok v' /\ veq v' v = true) ->
+  (forall ck s v, cdec ck s = Ok v -> cenc ck v = Ok s) ->
+  forall t d v, wf_t t -> distinguishable cdec w t ->
+  valid (dna_spec w t) d = true -> sdecode cdec w t d = Ok v -> sencode cenc w q t v = Ok d.
+Proof. exact encode_decode. Qed.
+Print Assumptions C13_encode_decode.
+
+(* the custom hypers and the filters of the check meet the assumptions above *)
+Theorem C13_check_instance :
+  custom_concrete std_cdec /\ (forall ck v e, std_cenc ck v = Err e -> catchable e = true) /\
+  (forall ck v s, std_cenc ck v = Ok s -> exists v', std_cdec ck s = Ok v' /\ veq v' v = true) /\
+  (forall ck s v, std_cdec ck s = Ok v -> std_cenc ck v = Ok s) /\ (forall d, shallow (weval d)).
+Proof. exact (conj std_concrete (conj std_cenc_err (conj std_cenc_sound (conj std_cenc_dec weval_shallow)))). Qed.
+Print Assumptions C13_check_instance.
